@@ -342,6 +342,8 @@ def c10_e2e_job(job):
             ta["d_init"] = d
         else:
             ta["from_params"] = True
+        if how != "dist" and "d0" in var:
+            ta["d0"] = var["d0"]   # the distribution object was created with another delay than the one set at init (graphs must still be generated for min)
         cfgB = copy.deepcopy(cfg)
         tb = [c for c in cfgB["conns"] if "train" in c][0]
         del tb["train"]
